@@ -139,7 +139,11 @@ func (o *OpenAPI3Importer) convertSpec(spec *openapi3.T) (string, error) {
 	for _, k := range methodDisplayOrder {
 		endpoints[k] = nil
 	}
-	for path, ep := range spec.Paths.Map() {
+	// paths and (in buildEndpoint) methods are visited in a fixed order: the names of the types generated for
+	// responses depend on what has been generated before
+	pathItems := spec.Paths.Map()
+	for _, path := range utils.OrderedKeys(pathItems) {
+		ep := pathItems[path]
 		meps, err := o.buildEndpoint(path, ep)
 		if err != nil {
 			return "", err
@@ -579,7 +583,8 @@ func (o *OpenAPI3Importer) buildEndpoint(path string, item *openapi3.PathItem) (
 		return nil, err
 	}
 
-	for method, op := range ops {
+	for _, method := range methodDisplayOrder {
+		op := ops[method]
 		if op == nil {
 			continue
 		}
@@ -720,6 +725,15 @@ func (o *OpenAPI3Importer) buildResponses(
 	} else if len(respType.Properties) > 0 {
 		if err := respType.SortProperties(); err != nil {
 			return err
+		}
+		// The name is made of the path and the status code only: another method of the same path may already
+		// have generated a response type of that name. Share it if it is the same, else tell the two apart.
+		if existing, found := o.types.Find(respType.Name()); found {
+			if st, ok := existing.(*StandardType); ok && reflect.DeepEqual(st.Properties, respType.Properties) {
+				respType = st
+			} else {
+				respType.SetName(fmt.Sprintf("%s_%s", method, respType.Name()))
+			}
 		}
 		o.types.Add(respType)
 		r.Type = respType
